@@ -30,6 +30,9 @@
 //!                               a record head: generated dictionaries (as `sm`), site fields, INFO
 //!                               flags, FORMAT Integer scalars; obs = the whole record as written and
 //!                               chrom|pos|qual|ids|ref|alts|filters|n_info|n_fmt|n_sample read back
+//!   blk <info specs> <fmt specs> ns   a record with several INFO fields and FORMAT series
+//!                               (`kind~arg|kind~arg`, the micro kinds above; keys X0.. / Y0.. / GT):
+//!                               obs = the whole record as written and every field read back
 //! Implementation-only oracle:
 //!   rec profile seed            a generated header (+IDX assignments) and record, written as BCF,
 //!                               read back through read_record_buf and through the lazy bcf::Record,
@@ -1517,6 +1520,61 @@ fn generate(rng: &mut Rng, tier: &str, w: &mut CaseWriter) {
             e(alts.iter().map(|s| hex(s.as_bytes())).collect(), ","), e(filt, ","), e(flags, ","), ns.to_string(), e(fm, "|")]);
     }
 
+    // --- several INFO fields and several FORMAT series in one record (the walk over the blocks)
+    for _ in 0..(250 * mul) {
+        let ninfo = rng.range(0, 5) as usize;
+        let nfmt = rng.range(0, 4) as usize;
+        let ns = if nfmt == 0 { *rng.pick(&[0usize, 2]) } else { rng.range(1, 3) as usize };
+        let clean_f = |rng: &mut Rng| gen_float(rng, false).to_string();
+        let opt_join = |v: Vec<Option<String>>| v.into_iter().map(|x| x.unwrap_or_else(|| ".".into())).collect::<Vec<_>>().join(",");
+        let mut is: Vec<String> = Vec::new();
+        for _ in 0..ninfo {
+            let len = *rng.pick(&[1usize, 2, 3, 5, 15, 16]);
+            let miss = rng.range(0, 3);
+            is.push(match rng.below(9) {
+                0 => format!("ii~{}", gen_int(rng, false)),
+                1 => format!("iv~{}", fmt_opt_list(&gen_int_vec(rng, len, 2, miss, false))),
+                2 => format!("if~{}", clean_f(rng)),
+                3 => format!("ifv~{}", opt_join((0..len).map(|_| if rng.chance(miss, 10) { None } else { Some(clean_f(rng)) }).collect())),
+                4 => format!("is~{}", hex(gen_word(rng, 1, 20).as_bytes())),
+                5 => format!("ic~{}", hex(gen_word(rng, 1, 1).as_bytes())),
+                6 => format!("icv~{}", opt_join((0..len).map(|_| if rng.chance(miss, 10) { None } else { Some(hex(gen_word(rng, 1, 1).as_bytes())) }).collect())),
+                7 => format!("isv~{}", opt_join((0..len).map(|_| if rng.chance(miss, 10) { None } else { Some(hex(gen_word(rng, 1, 6).as_bytes())) }).collect())),
+                _ => format!("im~{}", rng.pick(&["Integer", "Float", "String"])),
+            });
+        }
+        let mut fs: Vec<String> = Vec::new();
+        let gt_first = nfmt > 0 && rng.chance(1, 2);
+        for j in 0..nfmt {
+            let miss = rng.range(0, 3);
+            let kind = if j == 0 && gt_first { 0 } else { rng.range(1, 8) };
+            let per: Vec<String> = (0..ns)
+                .map(|i| {
+                    let absent = kind != 0 && i > 0 && rng.chance(1, 4);
+                    if absent {
+                        return ".".to_string();
+                    }
+                    let len = rng.range(1, 4) as usize;
+                    match kind {
+                        0 => { let p = rng.range(1, 3) as usize; fmt_gt(&gen_gt(rng, p, true)) }
+                        1 => { let wd = rng.below(3); gen_int_in_width(rng, wd).to_string() }
+                        2 => fmt_opt_list(&gen_int_vec(rng, len, 2, miss, false)),
+                        3 => clean_f(rng),
+                        4 => opt_join((0..len).map(|_| if rng.chance(miss, 10) { None } else { Some(clean_f(rng)) }).collect()),
+                        5 => hex(gen_word(rng, 1, 1).as_bytes()),
+                        6 => opt_join((0..len).map(|_| if rng.chance(miss, 10) { None } else { Some(hex(gen_word(rng, 1, 1).as_bytes())) }).collect()),
+                        7 => hex(gen_word(rng, 1, 18).as_bytes()),
+                        _ => opt_join((0..len).map(|_| if rng.chance(miss, 10) { None } else { Some(hex(gen_word(rng, 1, 6).as_bytes())) }).collect()),
+                    }
+                })
+                .collect();
+            let k = ["gt", "fi", "fv", "ff", "ffv", "fc", "fcv", "fs", "fsv"][kind as usize];
+            fs.push(format!("{k}~{}", per.join(";")));
+        }
+        let e = |v: Vec<String>| if v.is_empty() { "e".to_string() } else { v.join("|") };
+        w.push("blk", vec![e(is), e(fs), ns.to_string()]);
+    }
+
     // --- whole records
     let n_rec = if thorough { 40000 } else { 3000 };
     for i in 0..n_rec {
@@ -1940,17 +1998,13 @@ fn run_sm(c: &Case) -> Obs {
     let obs = format!("W={}|R={}", show(&w), show(&r));
     let verdict = match (&w, &r) {
         (Some(a), Some(b)) if a.0 != b.0 => Err(("string-map-writer-reader-differ".to_string(), obs.clone())),
-        // an ID that does not resolve back to itself.  Known input class: a line's explicit IDX names
-        // a slot that an earlier, different ID already occupies (by its own IDX or by order of
-        // appearance); both lines are accepted and share the slot
-        (Some(a), Some(b)) if !(a.1 && b.1) => {
-            let tag = if sm_idx_conflict(&strings, true) || sm_idx_conflict(&contigs, false) {
-                "header-idx-conflict-accepted"
-            } else {
-                "string-map-unresolved"
-            };
-            Err((tag.to_string(), obs.clone()))
+        // a line's explicit IDX names a slot that an earlier, different ID already occupies: the
+        // header must be rejected (fix 09); accepting it is the recurrence of that defect
+        (Some(_), Some(_)) if sm_idx_conflict(&strings, true) || sm_idx_conflict(&contigs, false) => {
+            Err(("header-idx-conflict-accepted".to_string(), obs.clone()))
         }
+        // an ID that does not resolve back to itself
+        (Some(a), Some(b)) if !(a.1 && b.1) => Err(("string-map-unresolved".to_string(), obs.clone())),
         (Some(_), None) | (None, Some(_)) => Err(("string-map-writer-reader-differ".to_string(), obs.clone())),
         _ => Ok(()),
     };
@@ -2083,7 +2137,109 @@ fn run_hd(c: &Case) -> Obs {
     finish(Obs::ok(format!("{wobs} {robs}"), ok), verdict)
 }
 
+// ---------------------------------------------------------------------------------------------
+// `blk`: several INFO fields and several FORMAT series in one record.
+
+fn blk_specs(s: &str) -> Vec<(String, String)> {
+    if s == "e" {
+        return vec![];
+    }
+    s.split('|').map(|t| { let (k, v) = t.split_once('~').unwrap(); (k.to_string(), v.to_string()) }).collect()
+}
+
+fn run_blk(c: &Case) -> Obs {
+    let infos = blk_specs(&c.args[0]);
+    let fmts = blk_specs(&c.args[1]);
+    let ns: usize = c.args[2].parse().unwrap();
+    let mut h = Hdr { ff: (4, 4), contigs: vec![("c".into(), None)], samples: (0..ns).map(|i| format!("s{i}")).collect(), ..Hdr::default() };
+    let mut r = micro_rec();
+    for (j, (k, v)) in infos.iter().enumerate() {
+        let id = format!("X{j}");
+        let (num, ty, val) = match k.as_str() {
+            "ii" => (Num::Count(1), Ty::Int, Some(V::I(v.parse().unwrap()))),
+            "iv" => (Num::Dot, Ty::Int, Some(V::AI(parse_opt_i32s(v)))),
+            "if" => (Num::Count(1), Ty::Float, Some(V::F(v.parse().unwrap()))),
+            "ifv" => (Num::Dot, Ty::Float, Some(V::AF(parse_opt_u32s(v)))),
+            "is" => (Num::Count(1), Ty::Str, Some(V::S(hex_str(v)))),
+            "ic" => (Num::Count(1), Ty::Char, Some(V::C(hex_char(v)))),
+            "icv" => (Num::Dot, Ty::Char, Some(V::AC(parse_opt_chars(v)))),
+            "isv" => (Num::Dot, Ty::Str, Some(V::AS(parse_opt_strs(v)))),
+            "im" => (Num::Count(1), match v.as_str() { "Integer" => Ty::Int, "Float" => Ty::Float, _ => Ty::Str }, None),
+            _ => return Obs::fail("-", "unknown-kind", k),
+        };
+        h.infos.push(Def { id: id.clone(), num, ty, idx: None });
+        r.info.push((id, val));
+    }
+    let mut cols: Vec<Vec<Option<V>>> = Vec::new();
+    for (j, (k, v)) in fmts.iter().enumerate() {
+        let id = if k == "gt" { "GT".to_string() } else { format!("Y{j}") };
+        let per: Vec<&str> = v.split(';').collect();
+        assert_eq!(per.len(), ns, "sample count");
+        let (num, ty) = match k.as_str() {
+            "gt" => (Num::Count(1), Ty::Str),
+            "fi" => (Num::Count(1), Ty::Int),
+            "fv" => (Num::Dot, Ty::Int),
+            "ff" => (Num::Count(1), Ty::Float),
+            "ffv" => (Num::Dot, Ty::Float),
+            "fc" => (Num::Count(1), Ty::Char),
+            "fcv" => (Num::Dot, Ty::Char),
+            "fs" => (Num::Count(1), Ty::Str),
+            "fsv" => (Num::Dot, Ty::Str),
+            _ => return Obs::fail("-", "unknown-kind", k),
+        };
+        cols.push(
+            per.iter()
+                .map(|s| match k.as_str() {
+                    "gt" => Some(V::GT(parse_gt(s))),
+                    _ if *s == "." => None,
+                    "fi" => Some(V::I(s.parse().unwrap())),
+                    "fv" => Some(V::AI(parse_opt_i32s(s))),
+                    "ff" => Some(V::F(s.parse().unwrap())),
+                    "ffv" => Some(V::AF(parse_opt_u32s(s))),
+                    "fc" => Some(V::C(hex_char(s))),
+                    "fcv" => Some(V::AC(parse_opt_chars(s))),
+                    "fs" => Some(V::S(hex_str(s))),
+                    _ => Some(V::AS(parse_opt_strs(s))),
+                })
+                .collect(),
+        );
+        h.formats.push(Def { id: id.clone(), num, ty, idx: None });
+        r.keys.push(id);
+    }
+    // one row per header sample (rows without values when the record has no FORMAT key: that is
+    // what the reader returns for n_sample samples and n_fmt = 0)
+    r.samples = (0..ns).map(|i| cols.iter().map(|col| col[i].clone()).collect()).collect();
+    let header = parse_header(&header_text(&h)).expect("blk header");
+    let rb = to_buf(&r);
+    let (wobs, robs) = match write_bcf(&header, &rb) {
+        WriteRes::Err(k) => (format!("Err:{k}"), "-".to_string()),
+        WriteRes::Panic(_) => ("Panic".to_string(), "-".to_string()),
+        WriteRes::Ok { stream, hlen } => {
+            let back = match read_via_buf(&stream) {
+                Ok((_, b)) => {
+                    let x = of_buf(&b);
+                    let i: Vec<String> = x.info.iter().map(|(k, v)| format!("{k}={}", canon_v(v))).collect();
+                    let f: Vec<String> = x
+                        .keys
+                        .iter()
+                        .enumerate()
+                        .map(|(j, k)| format!("{k}={}", x.samples.iter().map(|s| canon_v(s.get(j).unwrap_or(&None))).collect::<Vec<_>>().join(";")))
+                        .collect();
+                    format!("{}||{}", i.join("|"), f.join("|"))
+                }
+                Err(_) => "Fail".into(),
+            };
+            (hex(&stream[hlen..]), back)
+        }
+    };
+    let (verdict, nontrivial) = check_record(&h, &r);
+    finish(Obs::ok(format!("{wobs} {robs}"), nontrivial), verdict)
+}
+
 fn run(c: &Case) -> Obs {
+    if c.kind == "blk" {
+        return run_blk(c);
+    }
     if c.kind == "hd" {
         return run_hd(c);
     }
